@@ -15,7 +15,7 @@ import time
 
 from . import common as C
 
-DRV = os.environ.get('VERIF_PIPE_DRV') or os.path.join(C.LEAN, '.lake/build/bin/ymdriver')  # (override: development only)
+DRV = os.environ.get('VERIF_PIPE_DRV') or os.path.join(C.LEAN, '.lake/build/bin/ymdriver_pipe')  # (override: development only)
 CORPUS = os.path.join(C.VERIF, 'corpus', 'pipe')
 
 D10_KEY = 'inner task with a Run-type head returned from a continuation'
@@ -549,7 +549,7 @@ def eager_twin(prog):
         body.append('then ' + s.text())
     body += ['flush', 'expect']
     tw.body = body
-    tw.meta = {'final_expect': len(body) - 1}
+    tw.meta = {'final_expect': len(body) - 1, 'manual': prog.meta.get('manual', set())}
     tw.tags = {'twin'}
     return tw
 
@@ -569,13 +569,13 @@ def harness(kind='plain'):
     return C.build_harness('pipe', kind, ['pipe.cpp'])
 
 
-def run_batch(line_lists, kind='plain', with_model=True):
-    """line_lists: list of programs (each a list of lines without `end`).  Returns per program dict of output lists."""
+def _run_chunk(args):
+    h, drv, line_lists, with_model = args
     text = ''.join('\n'.join(ls) + '\nend\n' for ls in line_lists)
-    outs = {'impl': run_stream([harness(kind)], text, 'pipe harness')}
+    outs = {'impl': run_stream([h], text, 'pipe harness')}
     if with_model:
-        outs['model'] = run_stream([DRV, 'pipe'], text, 'ymdriver pipe')
-        outs['spec'] = run_stream([DRV, 'pipe-spec'], text, 'ymdriver pipe-spec')
+        outs['model'] = run_stream([drv, 'pipe'], text, 'ymdriver pipe')
+        outs['spec'] = run_stream([drv, 'pipe-spec'], text, 'ymdriver pipe-spec')
     total = sum(len(ls) + 1 for ls in line_lists)
     for k, v in outs.items():
         if len(v) != total:
@@ -586,6 +586,23 @@ def run_batch(line_lists, kind='plain', with_model=True):
         res.append({k: v[pos:pos + len(ls)] for k, v in outs.items()})
         pos += len(ls) + 1
     return res
+
+
+def run_batch(line_lists, kind='plain', with_model=True):
+    """line_lists: list of programs (each a list of lines without `end`).  Returns per program dict of output lists.
+    Large batches are split over the cores (the three streams are independent per program)."""
+    from concurrent.futures import ThreadPoolExecutor
+    h = harness(kind)
+    n = len(line_lists)
+    nchunks = 1 if n < 400 else min(C.NPROC, max(1, n // 200))
+    size = (n + nchunks - 1) // nchunks if n else 1
+    chunks = [line_lists[i:i + size] for i in range(0, n, size)] or [[]]
+    with ThreadPoolExecutor(max_workers=max(1, len(chunks))) as ex:
+        parts = list(ex.map(_run_chunk, [(h, DRV, c, with_model) for c in chunks]))
+    out = []
+    for part in parts:
+        out += part
+    return out
 
 
 def parse_state(line):
@@ -714,7 +731,7 @@ def monitor(prog, outs, props):
     crashed = [i for i, o in enumerate(impl) if o in ('crash', 'missing')]
     if crashed:
         msg = 'the implementation crashed at line %d `%s`' % (crashed[0], lines[crashed[0]])
-        return [(p, msg) for p in ('C02', 'C03', 'C05', 'C12', 'C20')]
+        return [(p, msg) for p in ('C02', 'C03', 'C12')]
     states = [parse_state(o) for o in impl]
     started = False
     prev_alloc_total = 0
@@ -878,17 +895,22 @@ def corpus_programs():
 
 
 def exhaustive(max_steps=2):
-    """all programs of <= max_steps steps over the instantiated kinds (one representative payload per class),
-    each with the events 'everything late' and 'everything early'"""
+    """all programs of <= max_steps steps over the instantiated kinds (one representative payload per class):
+    every source x every (signature x attachment mode x behaviour class) per step x every start kind,
+    with the events 'everything late' (and, for eager ones, 'everything early')"""
     cfgs = {1: (True, None), 2: (True, 0), 3: (False, None)}
-    inner_defs = {
-        1: Inner(1, Src('ready', r='v10'), []),
-        2: Inner(2, Src('contract', p=5, ful='set:v11'), []),
-        3: Inner(3, Src('run', head=Step(90, 'V', 'on', 'e1', ('val', 12)), ex='e1'), []),
-        4: Inner(4, Src('task_ready', r='v13'), [Step(91, 'V', 'inline', None, ('val', 1))]),
-        5: Inner(5, Src('shared_ready', r='v14'), []),
-        6: Inner(6, Src('contract_on', ex='e1', p=6, ful='set:e3'), []),
-    }
+
+    def inner_defs(j):
+        """fresh inner pipelines for step j (distinct step ids / promise numbers per use)"""
+        b = 100 * (j + 1)
+        return {
+            10 * j + 1: Inner(10 * j + 1, Src('ready', r='v10'), []),
+            10 * j + 2: Inner(10 * j + 2, Src('contract', p=10 + j, ful='set:v11'), []),
+            10 * j + 3: Inner(10 * j + 3, Src('run', head=Step(b, 'V', 'on', 'e1', ('val', 12)), ex='e1'), []),
+            10 * j + 4: Inner(10 * j + 4, Src('task_ready', r='v13'), [Step(b + 1, 'V', 'on', 'e1', ('val', 1))]),
+            10 * j + 5: Inner(10 * j + 5, Src('shared_ready', r='v14'), []),
+            10 * j + 6: Inner(10 * j + 6, Src('contract_on', ex='e1', p=20 + j, ful='set:e3'), [Step(b + 2, 'E', 'inherit', None, ('res', 'x5'))]),
+        }
     srcs = [Src('ready', r='v1'), Src('ready', r='e2'), Src('ready', r='x3'), Src('contract', p=0, ful='set:v1'),
             Src('contract', p=0, ful='drop'), Src('contract_on', ex='e1', p=0, ful='set:v1'),
             Src('run', head=Step(80, 'V', 'on', 'e1', ('val', 1)), ex='e1'),
@@ -896,22 +918,26 @@ def exhaustive(max_steps=2):
             Src('async_contract', ex='e1', p=0, ful='set:v1'),
             Src('task_ready', r='v1'), Src('schedule', head=Step(80, 'V', 'on', 'e1', ('val', 1)), ex='e1'),
             Src('lazy_contract', ex='e1', p=0, ful='set:x4')]
-    behs = [('val', 1), ('res', 'e7'), ('res', 'v8'), ('throw', 9)] + [('async', p) for p in inner_defs]
     modes = [('inline', None), ('on', 'e1'), ('on', 'e2'), ('on', 'e3'), ('inherit', None), ('detach_inline', None), ('detach', 'e1')]
+    if max_steps >= 2:
+        srcs = [srcs[i] for i in (0, 1, 3, 5, 6, 9, 10, 11)]
+        modes = [modes[i] for i in (0, 1, 2, 4, 5)]
     progs = []
     for src in srcs:
         k0 = kind_of_src(src)
         starts = ['tofuture', 'tofuture:e1', 'detach', 'cancel'] if src.lazy() else [None]
         for n in range(max_steps + 1):
-            for combo in itertools.product(itertools.product('RVEX', modes, behs), repeat=n):
+            behs = [[('val', 1), ('res', 'e7'), ('res', 'v8'), ('throw', 9)] + [('async', pid) for pid in inner_defs(j)] for j in range(n)]
+            per_step = [list(itertools.product('RVEX', modes, behs[j])) for j in range(n)]
+            for combo in itertools.product(*per_step):
                 k = k0
                 steps = []
                 ok = True
                 for j, (sig, (m, ex), beh) in enumerate(combo):
-                    st = Step(j + 1, sig, m, ex, ('val', 0) if m.startswith('detach') and beh[0] in ('res', 'async') else beh)
                     if m.startswith('detach') and beh[0] in ('res', 'async'):
                         ok = False
                         break
+                    st = Step(j + 1, sig, m, ex, beh)
                     k = kind_after(k, st)
                     if k == 'B' or (k == 'N' and j != n - 1):
                         ok = False
@@ -919,23 +945,23 @@ def exhaustive(max_steps=2):
                     steps.append(st)
                 if not ok:
                     continue
+                used = {}
+                for j, (_, _, b) in enumerate(combo):
+                    if b[0] == 'async':
+                        used[b[1]] = inner_defs(j)[b[1]]
                 for start in starts:
-                    if start in ('detach', 'cancel') and False:
-                        continue
                     for early in ((False, True) if n > 0 and not src.lazy() else (False,)):
                         p = Program()
                         p.cfg, p.src, p.steps, p.start = cfgs, src, steps, start
-                        used = {b[1] for _, _, b in combo if b[0] == 'async'}
-                        p.inner = {pid: inner_defs[pid] for pid in sorted(used)}
-                        flush = ['set p0', 'set p5', 'set p6', 'drain e1', 'drain e2', 'drain e3']
+                        p.inner = dict(sorted(used.items()))
                         body = ['src ' + src.text()]
                         if early:
-                            body += flush[:6]
+                            body += ['set p0', 'drain e1', 'drain e2']
                         body += ['then ' + s.text() for s in steps]
                         if src.lazy():
                             body += ['expect', 'droptask' if start == 'cancel' else 'start ' + start]
                         body += ['flush', 'expect']
-                        p.meta = {'final_expect': len(body) - 1, 'next_p': 6}
+                        p.meta = {'final_expect': len(body) - 1, 'next_p': 30}
                         if k in 'FO' and start in (None, 'tofuture', 'tofuture:e1'):
                             body += ['get', 'expect']
                         p.body = body
@@ -981,7 +1007,7 @@ def distribution(progs, results):
     return d
 
 
-def check(res, prop, tier, n_quick, n_thorough, extra_programs=(), twins=False):
+def check(res, prop, tier, n_quick, n_thorough, extra_programs=(), twins=False, exhaustive_steps=1):
     """Shared T3 stage. `prop` selects generator emphasis and which monitor findings count as this property's."""
     t0 = time.time()
     rng = random.Random(C.seed() * 1000003 + sum(ord(c) for c in prop))
@@ -997,8 +1023,13 @@ def check(res, prop, tier, n_quick, n_thorough, extra_programs=(), twins=False):
     progs += list(extra_programs)
     for _ in range(n):
         progs.append(gen.program())
+    n_asan = len(progs) if n <= 20000 else len(progs) - (n - 20000)   # the sanitizer build runs corpus + 20 000 random programs …
     if tier != 'quick':
-        progs += exhaustive(2)
+        ex1 = exhaustive(1)
+        progs = progs[:n_asan] + ex1 + progs[n_asan:]                  # … + all <=1-step programs
+        n_asan += len(ex1)
+        if exhaustive_steps >= 2:
+            progs += exhaustive(2)
     if twins:
         for p in list(progs):
             tw = eager_twin(p) if 'lazy' in p.tags and 'd10' not in p.tags else None
@@ -1011,13 +1042,15 @@ def check(res, prop, tier, n_quick, n_thorough, extra_programs=(), twins=False):
     prop_fail = []   # (prog index, message)
     corr_fail = []   # (prog index, line)
     known = 0
+    known_first = None
     for kind in kinds:
-        rs = run_batch([p.lines() for p in progs], kind, with_model=drv_ok)
+        sub = progs if kind == 'plain' else progs[:n_asan]
+        rs = run_batch([p.lines() for p in sub], kind, with_model=drv_ok)
         if results is None:
             results = rs
-        for idx, (p, o) in enumerate(zip(progs, rs)):
+        for idx, (p, o) in enumerate(zip(sub, rs)):
             ms = [(q, m) for (q, m) in monitor(p, o, {prop}) if q in (prop, 'gen')]
-            if twins and 'twin' in p.meta and not ms:
+            if twins and 'twin' in p.meta and not ms and p.meta['twin'] < len(rs):
                 tw, to = progs[p.meta['twin']], rs[p.meta['twin']]
                 a = parse_state(o['impl'][len(o['impl']) - len(p.body) + p.meta['final_expect']])
                 b = parse_state(to['impl'][len(to['impl']) - len(tw.body) + tw.meta['final_expect']])
@@ -1026,6 +1059,8 @@ def check(res, prop, tier, n_quick, n_thorough, extra_programs=(), twins=False):
             if ms:
                 if 'd10' in p.tags:
                     known += 1
+                    if known_first is None:
+                        known_first = (idx, kind, ms[0][1])
                     continue
                 prop_fail.append((idx, kind, ms[0][0], ms[0][1]))
             elif drv_ok:
@@ -1033,7 +1068,14 @@ def check(res, prop, tier, n_quick, n_thorough, extra_programs=(), twins=False):
                 if ln is not None and 'd10' not in p.tags:
                     corr_fail.append((idx, kind, ln))
     if known:
-        res.known_finding('%s (key: %s; %d generated/corpus program(s) of that shape)' % (D10_WHAT, D10_KEY, known))
+        idx, kind, msg = known_first
+        small = shrink(progs[idx].lines(), fails_with({prop}, kind), budget=150)
+        os.makedirs(C.REPLAYS, exist_ok=True)
+        rpath = os.path.join(C.REPLAYS, '%s_known_D10.txt' % prop)
+        with open(rpath, 'w') as f:
+            f.write('# property=%s tier=%s seed=%d\n# KNOWN-FINDING D10 (%s): %s\n' % (prop, tier, C.seed(), D10_KEY, msg))
+            f.write('\n'.join(small) + '\nend\n')
+        res.known_finding('%s (key: %s; %d generated/corpus program(s) of that shape; replay=%s)' % (D10_WHAT, D10_KEY, known, rpath))
     reported = set()
     for (idx, kind, q, msg) in prop_fail[:20]:
         p = progs[idx]
@@ -1062,13 +1104,13 @@ def check(res, prop, tier, n_quick, n_thorough, extra_programs=(), twins=False):
     dist = distribution(progs, results)
     distinct = len({tuple(p.lines()) for p in progs if len(p.body) > 2})
     res.coverage.update({
-        'evaluations': len(progs) * len(kinds), 'distinct_nontrivial': distinct,
+        'evaluations': len(progs) + (n_asan if len(kinds) > 1 else 0), 'distinct_nontrivial': distinct,
         'rule': 'pipeline programs from PRNG(VERIF_SEED) with emphasis %s (state-aware generator) + corpus/pipe%s%s; '
                 'distinct = distinct programs with at least one line after the source' % (
                     prop, ' + eager twins of the lazy programs' if twins else '',
-                    ' + exhaustive enumeration of all <=2-step programs over the instantiated kinds' if tier != 'quick' else ''),
+                    ' + exhaustive enumeration of all <=%d-step programs over the instantiated kinds' % exhaustive_steps if tier != 'quick' else ''),
         'samples': [' ; '.join(p.lines()) for p in progs[len(progs) // 2: len(progs) // 2 + 3]],
-        'traces_validated_against_impl': len(progs) * len(kinds) if drv_ok else 0,
+        'traces_validated_against_impl': (len(progs) + (n_asan if len(kinds) > 1 else 0)) if drv_ok else 0,
         'distribution': dist,
         'streams_compared': ['yaclib (harness/pipe.cpp, builds: %s)' % ','.join(kinds)] + (['Lean mech', 'Lean spec'] if drv_ok else []),
         'known_d10_programs': known,
@@ -1078,6 +1120,11 @@ def check(res, prop, tier, n_quick, n_thorough, extra_programs=(), twins=False):
 
 
 def replay(prop, path):
+    if open(path).read().find('pipe --comb') >= 0:
+        r = subprocess.run([harness(), '--comb'], capture_output=True, text=True)
+        print(r.stdout)
+        print('VIOLATION reproduced (see the line named in the replay file)')
+        return 1
     lines = [l.strip() for l in open(path) if l.strip() and not l.startswith('#') and l.strip() != 'end']
     prog = reparse(lines)
     o = run_batch([lines])[0]
